@@ -3313,7 +3313,7 @@ def replace_known_sequence_value(value: Value) -> Value:
 
     - Replace AnnotatedValue with its inner type
     - Replace TypeVarValue with its fallback type
-    - Replace KnownValues representing list, tuples, sets, or dicts with
+    - Replace KnownValues representing list, tuples, sets, frozensets, or dicts with
       SequenceValue or DictIncompleteValue.
 
     """
@@ -3322,7 +3322,7 @@ def replace_known_sequence_value(value: Value) -> Value:
     if isinstance(value, TypeVarValue):
         return replace_known_sequence_value(value.get_fallback_value())
     if isinstance(value, KnownValue):
-        if isinstance(value.val, (list, tuple, set)):
+        if isinstance(value.val, (list, tuple, set, frozenset)):
             return SequenceValue(
                 type(value.val), [(False, KnownValue(elt)) for elt in value.val]
             )
